@@ -4,7 +4,7 @@
    whose SHA-1 coincide share a bucket inside this theorem.  [wf_hop] asks that the codec handles the
    written records faithfully (round trip, no control bytes, UTF-8) — discharged for API-written records
    by the codec theorems of C11. *)
-From CC Require Import Bytes Codec Utf8 Lines Json Sri Record Fs Prog Api BytesP RecordP FsP ProgP IndexP.
+From CC Require Import Bytes Codec Utf8 Lines Json Sri Record Fs Prog Api BytesP CodecP RecordP FsP ProgP SriP IndexP ReadP WriteP CommitP JsonP RecCodecP MetaP.
 
 Section C05.
 Variable hash : algo -> bytes -> bytes.
@@ -37,6 +37,15 @@ Theorem C05_insert_frame f key o now :
              lookup (snd (run (insert hash key o now) f)) l = lookup f l).
 Proof. exact (insert_abs hash f key o now). Qed.
 
+(* the same with every hypothesis decidable (the codec round trip is a theorem: C11): keys valid UTF-8, timestamps < 2^128,
+   sizes < 2^64, metadata in serde_json normal form, integrities addressable *)
+Theorem C05_find_refines_map_closed (h : list hop) f0 :
+  IndexInv f0 -> forallb hop_ok h = true ->
+  IndexInv (fold_left (exec_hop hash) h f0) /\
+  (forall k, run (find hash k) (fold_left (exec_hop hash) h f0)
+             = (Ok (fold_left spec_step h (abs_idx hash f0) k), fold_left (exec_hop hash) h f0)).
+Proof. exact (find_refines_map_closed hash h f0). Qed.
+
 End C05.
 
 (* non-vacuity: the hypotheses are met by a concrete history on the empty tree, and the theorem's
@@ -55,6 +64,9 @@ Proof.
   all: intros i Hi; inversion Hi; subst; vm_compute; reflexivity.
 Qed.
 
+Example C05_example_hop_ok : forallb hop_ok [HIns (bs "a") ex_opts 5%N; HDel (bs "a") 6%N; HIns (bs "b") ex_opts 7%N] = true.
+Proof. vm_compute. reflexivity. Qed.
+
 Example C05_example_run :
   let f := fold_left (exec_hop toy_hash) [HIns (bs "a") ex_opts 5%N; HDel (bs "a") 6%N; HIns (bs "b") ex_opts 7%N] [] in
   fst (run (find toy_hash (bs "a")) f) = Ok None /\
@@ -67,6 +79,7 @@ Check (C05_find_refines_map : forall hash h f0, IndexInv f0 -> Forall (wf_hop ha
              = (Ok (fold_left spec_step h (abs_idx hash f0) k), fold_left (exec_hop hash) h f0))).
 
 Print Assumptions C05_find_refines_map.
+Print Assumptions C05_find_refines_map_closed.
 Print Assumptions C05_last_write_wins.
 Print Assumptions C05_removed_absent.
 Print Assumptions C05_insert_frame.
